@@ -834,6 +834,10 @@ class SymBytes:
     b = list(r.b)
     while b and bool(Or(*[(b[0] == c) for c in chars])): b.pop(0)
     return SymBytes(b)
+  def isdigit(self):
+    return len(self.b) > 0 and bool(And(*[And(c >= 48, c <= 57) for c in self.b]))
+  def lower(self):
+    return SymBytes([Ite(And(c >= 65, c <= 90), c + 32, c) if isinstance(c, SymInt) else (c + 32 if 65 <= c <= 90 else c) for c in self.b])
   def decode(self, enc='utf-8', errors='strict'):
     if enc.lower().replace('_', '-') in ('latin-1', 'latin1', 'iso-8859-1'):
       s = self.simplified()
